@@ -1,0 +1,285 @@
+//go:build verif
+
+package kafka
+
+// Add-only hooks for the C03 check (consumer-group Reader: commits and start offsets).
+// Nothing here changes behaviour; it only makes unexported pieces callable from
+// /verif/harness/cmd/c03.
+
+import (
+	"context"
+	"errors"
+	"io"
+	"sort"
+	"sync"
+	"time"
+)
+
+// VerifC03TPO is a flattened (topic, partition, offset) triple.
+type VerifC03TPO struct {
+	Topic     string
+	Partition int
+	Offset    int64
+}
+
+func verifC03Flatten(o offsetStash) []VerifC03TPO {
+	var out []VerifC03TPO
+	for t, ps := range o {
+		for p, off := range ps {
+			out = append(out, VerifC03TPO{t, p, off})
+		}
+	}
+	sort.Slice(out, func(i, j int) bool {
+		if out[i].Topic != out[j].Topic {
+			return out[i].Topic < out[j].Topic
+		}
+		return out[i].Partition < out[j].Partition
+	})
+	return out
+}
+
+func verifC03Stash(in []VerifC03TPO) offsetStash {
+	o := offsetStash{}
+	for _, e := range in {
+		if o[e.Topic] == nil {
+			o[e.Topic] = map[int]int64{}
+		}
+		o[e.Topic][e.Partition] = e.Offset
+	}
+	return o
+}
+
+// VerifC03MakeCommits runs makeCommits on messages given as (topic, partition, offset).
+func VerifC03MakeCommits(msgs []VerifC03TPO) []VerifC03TPO {
+	ms := make([]Message, len(msgs))
+	for i, m := range msgs {
+		ms[i] = Message{Topic: m.Topic, Partition: m.Partition, Offset: m.Offset}
+	}
+	cs := makeCommits(ms...)
+	out := make([]VerifC03TPO, len(cs))
+	for i, c := range cs {
+		out[i] = VerifC03TPO{c.topic, c.partition, c.offset}
+	}
+	return out
+}
+
+// VerifC03Merge runs offsetStash.merge (and optionally reset first) on a stash.
+func VerifC03Merge(stash []VerifC03TPO, commits []VerifC03TPO, resetFirst bool) []VerifC03TPO {
+	o := verifC03Stash(stash)
+	if resetFirst {
+		o.reset()
+	}
+	cs := make([]commit, len(commits))
+	for i, c := range commits {
+		cs[i] = commit{topic: c.Topic, partition: c.Partition, offset: c.Offset}
+	}
+	o.merge(cs)
+	return verifC03Flatten(o)
+}
+
+// VerifC03Coord is a scripted coordinator: the i-th OffsetCommit is answered with
+// Outcomes[i] (0 = ok, > 0 = that Kafka error code, < 0 = connection error); OffsetFetch
+// answers Committed (partitions listed in Omit are left out of the response).
+type VerifC03Coord struct {
+	mu        sync.Mutex
+	Outcomes  []int
+	Committed []VerifC03TPO
+	Omit      []VerifC03TPO
+	Requests  [][]VerifC03TPO // offsets of every OffsetCommit request seen
+	Answered  []int           // outcome given to each
+	Gens      []int32
+	Members   []string
+	Seen      chan struct{} // receives one token per OffsetCommit request (buffered)
+}
+
+type verifC03Conn struct{ c *VerifC03Coord }
+
+func (v verifC03Conn) Close() error { return nil }
+func (v verifC03Conn) findCoordinator(findCoordinatorRequestV0) (findCoordinatorResponseV0, error) {
+	return findCoordinatorResponseV0{}, errors.New("verif: not scripted")
+}
+func (v verifC03Conn) joinGroup(joinGroupRequest) (joinGroupResponse, error) {
+	return joinGroupResponse{}, errors.New("verif: not scripted")
+}
+func (v verifC03Conn) syncGroup(syncGroupRequestV0) (syncGroupResponseV0, error) {
+	return syncGroupResponseV0{}, errors.New("verif: not scripted")
+}
+func (v verifC03Conn) leaveGroup(leaveGroupRequestV0) (leaveGroupResponseV0, error) {
+	return leaveGroupResponseV0{}, errors.New("verif: not scripted")
+}
+func (v verifC03Conn) heartbeat(heartbeatRequestV0) (heartbeatResponseV0, error) {
+	return heartbeatResponseV0{}, nil
+}
+func (v verifC03Conn) readPartitions(...string) ([]Partition, error) {
+	return nil, errors.New("verif: not scripted")
+}
+
+func (v verifC03Conn) offsetFetch(req offsetFetchRequestV1) (offsetFetchResponseV1, error) {
+	c := v.c
+	c.mu.Lock()
+	defer c.mu.Unlock()
+	var res offsetFetchResponseV1
+	for _, t := range req.Topics {
+		tr := offsetFetchResponseV1Response{Topic: t.Topic}
+		for _, p := range t.Partitions {
+			omit := false
+			for _, o := range c.Omit {
+				if o.Topic == t.Topic && int32(o.Partition) == p {
+					omit = true
+				}
+			}
+			if omit {
+				continue
+			}
+			off := int64(-1)
+			for _, cm := range c.Committed {
+				if cm.Topic == t.Topic && int32(cm.Partition) == p {
+					off = cm.Offset
+				}
+			}
+			tr.PartitionResponses = append(tr.PartitionResponses, offsetFetchResponseV1PartitionResponse{Partition: p, Offset: off})
+		}
+		res.Responses = append(res.Responses, tr)
+	}
+	return res, nil
+}
+
+func (v verifC03Conn) offsetCommit(req offsetCommitRequestV2) (offsetCommitResponseV2, error) {
+	c := v.c
+	c.mu.Lock()
+	var offs []VerifC03TPO
+	for _, t := range req.Topics {
+		for _, p := range t.Partitions {
+			offs = append(offs, VerifC03TPO{t.Topic, int(p.Partition), p.Offset})
+		}
+	}
+	sort.Slice(offs, func(i, j int) bool {
+		if offs[i].Topic != offs[j].Topic {
+			return offs[i].Topic < offs[j].Topic
+		}
+		return offs[i].Partition < offs[j].Partition
+	})
+	out := 0
+	if len(c.Outcomes) > 0 {
+		out = c.Outcomes[0]
+		c.Outcomes = c.Outcomes[1:]
+	}
+	c.Requests = append(c.Requests, offs)
+	c.Answered = append(c.Answered, out)
+	c.Gens = append(c.Gens, req.GenerationID)
+	c.Members = append(c.Members, req.MemberID)
+	seen := c.Seen
+	c.mu.Unlock()
+	if seen != nil {
+		select {
+		case seen <- struct{}{}:
+		default:
+		}
+	}
+	switch {
+	case out == 0:
+		return offsetCommitResponseV2{}, nil
+	case out > 0:
+		return offsetCommitResponseV2{}, Error(out)
+	default:
+		return offsetCommitResponseV2{}, io.ErrClosedPipe
+	}
+}
+
+// VerifC03Snapshot returns what the scripted coordinator has seen so far.
+func (c *VerifC03Coord) VerifC03Snapshot() (reqs [][]VerifC03TPO, answered []int) {
+	c.mu.Lock()
+	defer c.mu.Unlock()
+	return append([][]VerifC03TPO(nil), c.Requests...), append([]int(nil), c.Answered...)
+}
+
+// VerifC03FetchAssign runs (*ConsumerGroup).fetchOffsets and makeAssignments for the given
+// subscription against the scripted coordinator.
+func VerifC03FetchAssign(topics []string, startOffset int64, subs map[string][]int32, c *VerifC03Coord) ([]VerifC03TPO, error) {
+	cg := &ConsumerGroup{config: ConsumerGroupConfig{ID: "g", Topics: topics, StartOffset: startOffset}}
+	offsets, err := cg.fetchOffsets(verifC03Conn{c}, subs)
+	if err != nil {
+		return nil, err
+	}
+	as := cg.makeAssignments(subs, offsets)
+	var out []VerifC03TPO
+	for t, ps := range as {
+		for _, p := range ps {
+			out = append(out, VerifC03TPO{t, p.ID, p.Offset})
+		}
+	}
+	sort.Slice(out, func(i, j int) bool {
+		if out[i].Topic != out[j].Topic {
+			return out[i].Topic < out[j].Topic
+		}
+		return out[i].Partition < out[j].Partition
+	})
+	return out, nil
+}
+
+// VerifC03Loop drives the real commitLoop (immediate or interval) of a Reader against a
+// scripted coordinator.
+type VerifC03Loop struct {
+	r      *Reader
+	gen    *Generation
+	cancel context.CancelFunc
+	stop   context.CancelFunc
+	done   chan struct{}
+	Coord  *VerifC03Coord
+}
+
+func VerifC03NewLoop(commitInterval time.Duration, c *VerifC03Coord, generation int32, member string) *VerifC03Loop {
+	stctx, stop := context.WithCancel(context.Background())
+	r := &Reader{
+		config:  ReaderConfig{GroupID: "g", CommitInterval: commitInterval},
+		commits: make(chan commitRequest, 100),
+		stctx:   stctx,
+		stats:   &readerStats{},
+	}
+	gen := &Generation{
+		ID: generation, GroupID: "g", MemberID: member, conn: verifC03Conn{c},
+		done: make(chan struct{}), joined: make(chan struct{}),
+		log: func(func(Logger)) {}, logError: func(func(Logger)) {},
+	}
+	ctx, cancel := context.WithCancel(context.Background())
+	l := &VerifC03Loop{r: r, gen: gen, cancel: cancel, stop: stop, done: make(chan struct{}), Coord: c}
+	go func() {
+		defer close(l.done)
+		r.commitLoop(ctx, gen)
+	}()
+	return l
+}
+
+// Commit calls the real CommitMessages (blocking in sync mode).
+func (l *VerifC03Loop) Commit(ctx context.Context, msgs []VerifC03TPO) error {
+	ms := make([]Message, len(msgs))
+	for i, m := range msgs {
+		ms[i] = Message{Topic: m.Topic, Partition: m.Partition, Offset: m.Offset}
+	}
+	return l.r.CommitMessages(ctx, ms...)
+}
+
+// End cancels the generation context and waits for the loop to exit.
+func (l *VerifC03Loop) End(timeout time.Duration) bool {
+	l.cancel()
+	select {
+	case <-l.done:
+		return true
+	case <-time.After(timeout):
+		return false
+	}
+}
+
+// Stop cancels the Reader's stctx (as Close does).
+func (l *VerifC03Loop) Stop() { l.stop() }
+
+// VerifC03CommitWithRetry runs commitOffsetsWithRetry once.
+func VerifC03CommitWithRetry(stash []VerifC03TPO, c *VerifC03Coord, retries int) error {
+	r := &Reader{stctx: context.Background(), stats: &readerStats{}}
+	gen := &Generation{ID: 1, GroupID: "g", MemberID: "m", conn: verifC03Conn{c},
+		log: func(func(Logger)) {}, logError: func(func(Logger)) {}}
+	return r.commitOffsetsWithRetry(gen, verifC03Stash(stash), retries)
+}
+
+// VerifC03DefaultCommitRetries exposes defaultCommitRetries.
+const VerifC03DefaultCommitRetries = defaultCommitRetries
